@@ -462,6 +462,22 @@ impl<'a> Gen<'a> {
                         12 => call(id(*self.rng.pick(&["flatten", "tail", "head", "len", "sum", "max"])), vec![target]),
                         13 => call(id("slice"), vec![target, num(0), num(1)]),
                         14 => call(id("zip"), vec![target, id(&l)]),
+                        15 if self.rng.chance(1, 2) => {
+                            // the list spread into a rest parameter (or passed whole) and worked on
+                            // inside the callee
+                            let body = match self.rng.below(5) {
+                                0 => call(id("reverse"), vec![id("xs")]),
+                                1 => bin("*", id("xs"), num(2)),
+                                2 => call(id("sort"), vec![id("xs")]),
+                                3 => call(id("concat"), vec![id("xs"), E::List(vec![num(1)])]),
+                                _ => E::List(vec![E::Spread(Box::new(id("xs"))), num(0)]),
+                            };
+                            if self.rng.chance(1, 2) {
+                                call(E::Lam(vec![Arg::Rest("xs".into())], Box::new(body)), vec![E::Spread(Box::new(target))])
+                            } else {
+                                call(E::Lam(vec![Arg::Req("xs".into()), Arg::Opt("o".into())], Box::new(body)), vec![target])
+                            }
+                        }
                         _ => bin("??", target, num(0)),
                     };
                     // repeat the operation so that an in-place effect becomes visible twice
